@@ -71,7 +71,7 @@ Proof.
   unfold caller_creds in Hb.
   destruct (gid =? 0) eqn:Hg; destruct (uid =? 0) eqn:Hu; cbn [N.eqb orb euid egid fsetid];
     try (apply N.eqb_eq in Hg; subst gid); try (apply N.eqb_eq in Hu; subst uid); cbn [N.eqb] in *;
-    rewrite ?Hu; rewrite Hb; eexists; exists r0, s1; split; reflexivity.
+    unfold root_creds; cbn [euid egid fsetid N.eqb orb]; rewrite ?Hu in *; rewrite Hb; eexists; exists r0, s1; split; reflexivity.
 Qed.
 
 (* ---- ownership: a node created by the creating calls belongs to the calling credentials *)
@@ -163,7 +163,7 @@ Proof.
   match type of H with context [with_creds uid gid s ?b] => destruct (with_creds_from_root _ uid gid s b Hc) as [c [r [s1 [Hb Hw]]]] end.
   rewrite Hw in H. clear Hw. cbn [p_creds with_creds_of caller_creds euid p_host] in Hb. rewrite Hk in Hb.
   destruct (call (caller_creds uid gid) (p_host s) (id_host d)) as [r1 h'] eqn:Hcall.
-  unfold caller_creds in Hcall. rewrite Hcall in Hb. inversion Hb; subst r1 s1. cbn [snd].
+  inversion Hb; subst r1 s1. cbn [snd].
   destruct r.
   - rewrite (entry_reply_host _ _ _ _ _ _ H). reflexivity.
   - inversion H; subst. reflexivity.
@@ -187,7 +187,7 @@ Proof.
       inversion H; subst. inversion Hd; subst.
       apply (create_then_lookup_host _ _ _ _ _ _ _ _ _ _ _ _ Hc Ha) in Hx; [exact Hx|].
       destruct (c_ifh cf) eqn:Hi; [|reflexivity]. cbn. apply negb_false_iff. apply N.eqb_eq.
-      destruct (N.eq_dec uid 0) as [->|Hne]; [reflexivity|]. exfalso. apply Hk. split; [reflexivity | exact Hne].
+      destruct (N.eq_dec uid 0) as [->|Hne]; [reflexivity|]. exfalso. apply Hk. split; [exact Hi | exact Hne].
     + unfold create_then_lookup in H. rewrite Ha in H. inversion H; inversion Hd; subst; reflexivity.
   - (* mknod *)
     destruct (validate cf n); [inversion H; inversion Hd; subst; reflexivity|].
@@ -203,14 +203,14 @@ Proof.
       inversion H; subst. inversion Hd; subst.
       apply (create_then_lookup_host _ _ _ _ _ _ _ _ _ _ _ _ Hc Ha) in Hx; [exact Hx|].
       destruct (c_ifh cf) eqn:Hi; [|reflexivity]. cbn. apply negb_false_iff. apply N.eqb_eq.
-      destruct (N.eq_dec uid 0) as [->|Hne]; [reflexivity|]. exfalso. apply Hk. split; [reflexivity | exact Hne].
+      destruct (N.eq_dec uid 0) as [->|Hne]; [reflexivity|]. exfalso. apply Hk. split; [exact Hi | exact Hne].
     + unfold create_then_lookup in H. rewrite Ha in H. inversion H; inversion Hd; subst; reflexivity.
   - (* link *)
     destruct (validate cf n); [inversion H; inversion Hd; subst; reflexivity|].
     destruct (assoc inode (p_inodes s)) as [d|]; cbn [option_map] in Hd; [|inversion H; inversion Hd; subst; reflexivity].
     destruct (assoc newparent (p_inodes s)) as [nd|]; cbn [option_map] in Hd; [|inversion H; inversion Hd; subst; reflexivity].
     rewrite Hc in H. destruct (sys_linkat root_creds (p_host s) (id_host d) (id_host nd) n) as [[u|e] h'] eqn:Hl; inversion Hd; subst; cbn [snd].
-    + destruct (entry_reply (do_lookup (with_host s h') newparent n)) as [[rp0 io0] s0] eqn:He. inversion H; subst.
+    + match type of H with context [entry_reply ?x] => destruct (entry_reply x) as [[rp0 io0] s0] eqn:He end. inversion H; subst.
       rewrite (entry_reply_host _ _ _ _ _ _ He). reflexivity.
     + inversion H; subst. reflexivity.
   - (* unlink *)
